@@ -24,6 +24,8 @@ NA = {}
 def main():
     extra = json.load(open(os.path.join(ROOT, 'tools', 'manifest_extra.json'))) if os.path.exists(os.path.join(ROOT, 'tools', 'manifest_extra.json')) else {}
     CHECKS.update(extra.get('checks', {})); NA.update(extra.get('na', {}))
+    for k, t in extra.get('append', {}).items():
+        CHECKS[k] = dict(CHECKS[k], text=CHECKS[k]['text'] + ' ' + t)
     checks = []
     for pid in props:
         if pid in CHECKS:
